@@ -236,6 +236,9 @@ type Entry struct {
 	Op func(b *B) func(ro.Observable[int]) ro.Observable[int]
 	// Build builds the pipeline (derived from Op when nil).
 	Build func(b *B) Pipeline
+	// IntObs is set for entries without Op whose output is an observable of int
+	// (multi-source operators): lets a scenario put further operators downstream.
+	IntObs func(b *B) ro.Observable[int]
 	// Model computes the expected trace from the legal prefixes of the source
 	// scripts (nil = no exact model).
 	Model func(in []src.Script) Expect
